@@ -10,6 +10,7 @@ assignment / return, expressions folded by lib/exprfold.py) for every element fl
     anything else               -> the block returns an error"""
 from . import cfg
 from .exprfold import Unknown
+from . import evexfeatures
 from .evexfeatures import _eval_stmt, _Ret
 
 ELEM = {16: 2, 32: 4, 64: 8}
@@ -37,6 +38,9 @@ def run(chk, unit="asmjit/x86/x86instapi.cpp", rule="R-BROADCAST-ELEMENT-SIZE"):
                 if v["name"] == "mem_size":
                     msz = v["did"]
     chk.need(msz is not None, "validate(): local mem_size not found")
+    fh = chk.facts(unit, funcs=r"asmjit::x86::[A-Za-z_0-9:]+$")
+    evexfeatures.HELPERS.clear()
+    evexfeatures.HELPERS.update({g.name: g for g in cfg.load_functions(fh) if g.file.endswith(unit.split("/")[-1]) and g.name != fn.name})
     n = 0
     for flag in (16, 32, 64):
         for spec in (0, 2, 4, 8):
